@@ -80,6 +80,27 @@ def bias(rng, n):
     return rng.randrange(n)
 
 
+ONE_BITS = 0x3FF0000000000000
+
+
+def modulus(kind, n):
+    return ONE_BITS if kind == "f" else n
+
+
+def fresh(rng, kind, n):
+    """a boundary-biased residue"""
+    if kind == "f":
+        return G.fbits(bias(rng, 1 << 53) / float(1 << 53))
+    return bias(rng, n)
+
+
+def lift(rng, r, m):
+    """an un-normalised draw congruent to r modulo m"""
+    if rng.random() < 0.3:
+        return r
+    return rng.randrange(1, 1 << 12) * m + r
+
+
 class Source:
     """Serves typed draws (kind, range, value) from a feed (planned / replayed) or, when the feed does not match
     what the code asks for (or is absent), from the rng.  Records everything served."""
@@ -90,22 +111,22 @@ class Source:
         self.mismatch = False
 
     def take(self, kind, n):
+        """the residue the code receives; what is recorded is an UN-normalised draw D with D mod m = residue (m = the
+        range the code asked for), so that the model's own reduction `D mod (its idea of the range)` notices a changed range"""
         if len(self.rec) >= MAX_DRAWS:
             raise Budget()
-        d = None
+        m = modulus(kind, n)
+        D = None
         if self.feed is not None and not self.mismatch:
             if self.pos < len(self.feed) and self.feed[self.pos][0] == kind and self.feed[self.pos][1] == n:
-                d = self.feed[self.pos][2]
+                D = self.feed[self.pos][2]
                 self.pos += 1
             else:
                 self.mismatch = True
-        if d is None:
-            if kind == "f":
-                d = G.fbits(bias(self.rng, 1 << 53) / float(1 << 53))
-            else:
-                d = bias(self.rng, n)
-        self.rec.append((kind, n, d))
-        return d
+        if D is None:
+            D = lift(self.rng, fresh(self.rng, kind, n), m)
+        self.rec.append((kind, n, D))
+        return D % m
 
 
 class RandomProxy:
@@ -301,12 +322,9 @@ class Planner:
         self.out, self.nodes = [], 0
 
     def draw(self, kind, n):
-        if kind == "f":
-            d = G.fbits(bias(self.rng, 1 << 53) / float(1 << 53))
-        else:
-            d = bias(self.rng, n)
-        self.out.append((kind, n, d))
-        return d
+        r = fresh(self.rng, kind, n)
+        self.out.append((kind, n, lift(self.rng, r, modulus(kind, n))))
+        return r
 
     def letters(self):
         for _ in range(10):
@@ -1009,7 +1027,7 @@ def run(ctx):
         for k, n, d in rec:
             kk = ctx.notes["kinds_of_draws"]
             kk[k] = kk.get(k, 0) + 1
-    extremes = sum(1 for r in runs for k, n, d in r[4] if k == "i" and n > 2 and d in (0, n - 1))
+    extremes = sum(1 for r in runs for k, n, d in r[4] if k == "i" and n > 2 and d % n in (0, n - 1))
     ctx.notes["randint_draws_at_an_extreme_of_the_range"] = extremes
     for (e, case, st, vals, rec, mm), m in list(zip(runs, model))[:: max(1, len(runs) // 5)]:
         ctx.sample(dict(schema=e.raw, mode=case["mode"], n=case["n"], draws=len(rec), outcome=st, model=(m or "")[:160]))
